@@ -454,6 +454,13 @@ func runInBubble(t *testing.T, plan *Plan, opt RunOpts, res *RunResult) {
 		if s.GapUS > 0 {
 			env.Sim.RunFor(us(s.GapUS))
 		}
+		if !w.Stalled() {
+			for _, o := range w.Oracles {
+				if b, ok := o.(interface{ BeforeStep(*World, int, *Step) }); ok {
+					b.BeforeStep(w, i, s)
+				}
+			}
+		}
 		w.exec(i, s)
 		if w.checkWedged() {
 			res.Wedged = true
